@@ -33,7 +33,10 @@ def run(ctx):
             {"apps": ["a1", "a2"], "hb": False, "frame": "RR", "declined": ["11=b"]},
             {"apps": ["a1"], "hb": True, "frame": "TR"},
             {"apps": ["a1", "a2"], "hb": False, "frame": "GAP"},
-            {"apps": ["a1"], "hb": True, "frame": "APP"}]
+            {"apps": ["a1"], "hb": True, "frame": "APP"},
+            # the first messages of a connection (NETWORK_CONN_ESTABLISHED): Logon, Logout and an application send racing
+            {"init": "nce", "apps": ["a1"], "hb": False, "frame": "", "logon": True, "logout": True},
+            {"init": "nce", "apps": [], "hb": False, "frame": "LOGON", "logon": True, "logout": True}]
     if not q:
         cfgs.append({"apps": ["a1", "a2", "a3"], "hb": True, "frame": "RR"})
         cfgs.append({"apps": ["a1", "a2", "a3"], "hb": False, "frame": "GAP"})
